@@ -1,7 +1,10 @@
-(* Pins: the statements of Properties/C09.v cannot be weakened without this file failing. *)
+(* Pins: the statements of Properties/C09.v cannot be weakened without this file failing.
+   Generated from Properties/C09.v (same text). *)
 From BT Require Import Base.Util Base.LE Base.Float Generated.Consts Model.RTree Model.BBIFile Model.BigWigWrite
-  Proofs.RTreeCodec Proofs.RTreeBuild Proofs.FileRegions Spec.FormatDecode Proofs.C09Base Proofs.C09Codec Proofs.C09Chrom Proofs.C09RTree
-  Properties.C09.
+  Proofs.RTreeCodec Proofs.RTreeBuild Proofs.FileRegions Spec.FormatDecode Proofs.C09Base Proofs.C09Codec Proofs.C09Chrom Proofs.C09RTree.
+From BT Require Import Model.BigWigWriteZ Proofs.BigWigFileRoundTrip Proofs.BigWigFileData Proofs.ZoomBwLevels Proofs.C09Data Proofs.C09File Proofs.C09Levels
+  Proofs.C09Whole Proofs.C09BufSize.
+From BT Require Import Properties.C09.
 Local Open Scope N_scope.
 
 Check (C09_header_codec : forall img n magic nz ct dof ix fc dfc asql so ubuf,
@@ -41,3 +44,60 @@ Check (C09_rtree_codec : forall img n off lo hi b ips secs bs lv,
   offs_chain secs ->
   exists h e, parse_index img n false off lo hi = Some (h, map lf_of secs, e)
     /\ ih_block h = b /\ ih_ips h = ips /\ ih_count h = Nlen secs /\ off + 48 <= e <= off + Nlen bs).
+Check (C09_buf_size : forall compress fp o sizes inp bs,
+  bw_write_z compress fp o sizes inp = Ok bs -> opts_ok o ->
+  exists ids outs sum data zooms ubuf nz a b c d,
+    bw_collect fp o sizes inp = Ok (ids, outs, sum, data)
+    /\ bw_zoom_levels fp o outs (zoom_sizes_single o) = Ok zooms
+    /\ has_at bs 0 (header_bytes BIGWIG_MAGIC nz a b c 0 0 0 d ubuf)
+    /\ blocks_bound (o_compress o) ubuf (data ++ flat_map zl_secs zooms)
+    /\ (ubuf = 0 <-> o_compress o = false)).
+Check (C09_buf_size_multipass : forall compress fp o sizes inp bs,
+  bw_write_multipass_z compress fp o sizes inp = Ok bs -> opts_ok o ->
+  exists ids outs sum data zooms ubuf nz a b c d,
+    bw_collect fp o sizes inp = Ok (ids, outs, sum, data)
+    /\ has_at bs 0 (header_bytes BIGWIG_MAGIC nz a b c 0 0 0 d ubuf)
+    /\ blocks_bound (o_compress o) ubuf (data ++ flat_map zl_secs zooms)
+    /\ (ubuf = 0 <-> o_compress o = false)).
+Check (C09_model_uncompressed : forall compress fp o sizes inp, o_compress o = false ->
+  bw_write_z compress fp o sizes inp = bw_write fp o sizes inp
+  /\ bw_write_multipass_z compress fp o sizes inp = bw_write_multipass fp o sizes inp).
+Check (C09_decode_encode : forall fp o sizes inp bs inflate,
+  bw_write fp o sizes inp = Ok bs -> opts_ok o -> input_ok sizes inp -> Nlen bs < U64 ->
+  Forall (fun c : name => c <> []) (map fst (runs inp)) ->
+  o_sort_all o = true ->
+  Forall (fun z => z < W32) (zoom_sizes_single o) ->
+  exists ids outs sum data kept,
+    bw_collect fp o sizes inp = Ok (ids, outs, sum, data)
+    /\ incl kept (zoom_sizes_single o) /\ inc_from 0 kept
+    /\ decode bs inflate = Some (content_of fp o sizes ids outs sum kept)).
+Check (C09_decode_encode_multipass : forall fp o sizes inp bs inflate,
+  bw_write_multipass fp o sizes inp = Ok bs -> opts_ok o -> input_ok sizes inp -> Nlen bs < U64 ->
+  Forall (fun c : name => c <> []) (map fst (runs inp)) ->
+  o_sort_all o = true ->
+  manual_u32 o ->
+  exists ids outs sum data kept,
+    bw_collect fp o sizes inp = Ok (ids, outs, sum, data)
+    /\ inc_from 0 kept
+    /\ decode bs inflate = Some (content_of fp o sizes ids outs sum kept)).
+Check (C09_decode_encode_lenient : forall fp o sizes inp bs inflate,
+  bw_write fp o sizes inp = Ok bs \/ bw_write_multipass fp o sizes inp = Ok bs ->
+  opts_ok o -> input_ok sizes inp -> Nlen bs < U64 ->
+  Forall (fun c : name => c <> []) (map fst (runs inp)) ->
+  Forall (fun z => z < W32) (zoom_sizes_single o) -> manual_u32 o ->
+  exists ids outs sum data kept,
+    bw_collect fp o sizes inp = Ok (ids, outs, sum, data)
+    /\ inc_from 0 kept
+    /\ decode_lenient bs inflate = Some (content_of fp o sizes ids outs sum kept)).
+Check (C09_records_are_input : forall fp o sizes inp ids outs sum data,
+  bw_collect fp o sizes inp = Ok (ids, outs, sum, data) -> recs_of outs = input_records ids inp).
+Check (C09_ids_first_appearance : forall fp o sizes inp ids outs sum data,
+  bw_collect fp o sizes inp = Ok (ids, outs, sum, data) ->
+  ids = BigWigFileChroms.number 0 (BigWigFileInput.first_app (map fst inp))).
+Check (C09_summary_is_folded : forall fp o sizes inp ids outs sum data,
+  bw_collect fp o sizes inp = Ok (ids, outs, sum, data) ->
+  sum = match fold_left (summary_merge fp) (map (fun c => chrom_summary fp (co_vals c)) outs) None with
+        | Some s => s | None => summary_zero end).
+Check (C09_chrom_keys_refuted : exists bs, bw_write ieee c09_wit_opts c09_wit_sizes c09_wit_input = Ok bs
+    /\ decode bs (fun _ _ => None) = None
+    /\ exists c, decode_lenient bs (fun _ _ => None) = Some c /\ map fc_name (c_chroms c) = [[97]; [66]]).
